@@ -36,6 +36,8 @@ type auxIndex struct {
 	Unknown  []string // shapes the rule does not recognise
 	Pos      token.Pos
 	Sites    int
+	Subset   bool   // a subset index (keys whose record carries a flag) rather than an inverse index
+	Flag     string // subset index: the flag field
 }
 
 var (
@@ -75,6 +77,24 @@ func ResolveAuxIndexes(p *an.Prog) {
 		name := an.Ident(st.Field(i).Name())
 		am := fieldType[name]
 		if am == nil || memFieldSpace[name] != "" {
+			continue
+		}
+		// H: map[K]struct{} / map[K]bool beside P: map[K]record — a subset index (the keys of P whose record has some flag)
+		if isSetElem(am.Elem()) {
+			var prims []string
+			for pn, pm := range fieldType {
+				if memFieldSpace[pn] == "" || !types.Identical(pm.Key(), am.Key()) {
+					continue
+				}
+				if hasBoolField(pm.Elem()) {
+					prims = append(prims, pn)
+				}
+			}
+			if len(prims) == 1 {
+				ix := &auxIndex{Field: name, Primary: prims[0], Space: memFieldSpace[prims[0]], Pos: st.Field(i).Pos(), Subset: true}
+				auxIndexes[name] = ix
+				judgeSubsetIndex(p, ix, fns)
+			}
 			continue
 		}
 		// A: map[V]C with C = map[K]_ or []K; P: map[K]V
@@ -372,11 +392,300 @@ func checkAuxIndexes(p *an.Prog, r *an.Run) {
 		ix := auxIndexes[n]
 		switch {
 		case len(ix.Problems) > 0:
-			r.Check(false, "aux-index", "memory."+ix.Field, ix.Pos, "", "the inverse index %s of %s is not kept in step with it — %s (the persistent driver answers from the records themselves)", ix.Field, ix.Primary, strings.Join(ix.Problems, "; "))
+			r.Check(false, "aux-index", "memory."+ix.Field, ix.Pos, "", "the index %s of %s is not kept in step with it — %s (the persistent driver answers from the records themselves)", ix.Field, ix.Primary, strings.Join(ix.Problems, "; "))
 		case len(ix.Unknown) > 0:
-			r.Undec("aux-index", "memory."+ix.Field, ix.Pos, "%s looks like an inverse index of %s but is maintained in a way the rule does not recognise — %s", ix.Field, ix.Primary, strings.Join(ix.Unknown, "; "))
+			r.Undec("aux-index", "memory."+ix.Field, ix.Pos, "%s looks like an index of %s but is maintained in a way the rule does not recognise — %s", ix.Field, ix.Primary, strings.Join(ix.Unknown, "; "))
 		default:
-			r.Check(true, "aux-index", "memory."+ix.Field, ix.Pos, "inverse index of "+ix.Primary+": every write of the primary inserts under the new value and removes under the old one ("+itoa(ix.Sites)+" write sites)", "")
+			if ix.Subset {
+				r.Check(true, "aux-index", "memory."+ix.Field, ix.Pos, "subset index of "+ix.Primary+" by "+ix.Flag+": every write and removal of the primary brings it in step ("+itoa(ix.Sites)+" sites)", "")
+			} else {
+				r.Check(true, "aux-index", "memory."+ix.Field, ix.Pos, "inverse index of "+ix.Primary+": every write of the primary inserts under the new value and removes under the old one ("+itoa(ix.Sites)+" write sites)", "")
+			}
 		}
 	}
+}
+
+func isSetElem(t types.Type) bool {
+	switch x := t.Underlying().(type) {
+	case *types.Struct:
+		return x.NumFields() == 0
+	case *types.Basic:
+		return x.Kind() == types.Bool
+	}
+	return false
+}
+
+// hasBoolField: t is a struct (possibly embedding one) with a bool field somewhere one level down.
+func hasBoolField(t types.Type) bool {
+	st, ok := t.Underlying().(*types.Struct)
+	if !ok {
+		return false
+	}
+	for i := 0; i < st.NumFields(); i++ {
+		f := st.Field(i)
+		if b, ok := f.Type().Underlying().(*types.Basic); ok && b.Kind() == types.Bool {
+			return true
+		}
+		if f.Embedded() {
+			if in, ok := f.Type().Underlying().(*types.Struct); ok {
+				for j := 0; j < in.NumFields(); j++ {
+					if b, ok := in.Field(j).Type().Underlying().(*types.Basic); ok && b.Kind() == types.Bool {
+						return true
+					}
+				}
+			}
+		}
+	}
+	return false
+}
+
+// sameKeyExpr: two key expressions denote the same value: the same SSA value, or the same field path from the same root
+// (n.ID evaluated twice).
+func sameKeyExpr(a, b ssa.Value) bool {
+	a, b = stripConv(a), stripConv(b)
+	if a == b {
+		return true
+	}
+	ra, pa := an.RootPath(stripLoad(a))
+	rb, pb := an.RootPath(stripLoad(b))
+	if u, ok := a.(*ssa.UnOp); ok && u.Op == token.MUL {
+		ra, pa = an.RootPath(u.X)
+	}
+	if u, ok := b.(*ssa.UnOp); ok && u.Op == token.MUL {
+		rb, pb = an.RootPath(u.X)
+	}
+	return pa != "" && pa == pb && sameObject(ra, rb)
+}
+
+// judgeSubsetIndex: H holds exactly the keys of P whose record has the flag set iff every write P[k] = rec is paired,
+// in the same function and on every path, with H[k] = {} on the branch where the flag of the record written is true and
+// delete(H, k) on the other; every delete(P, k) with delete(H, k); nothing else writes H; H is made with the store.
+func judgeSubsetIndex(p *an.Prog, ix *auxIndex, fns []*ssa.Function) {
+	type site struct {
+		fn  *ssa.Function
+		in  ssa.Instruction
+		key ssa.Value
+		del bool
+	}
+	var pSites, hSites []site
+	made := false
+	for _, fn := range fns {
+		an.AllInstrs(fn, func(in ssa.Instruction) {
+			switch x := in.(type) {
+			case *ssa.MapUpdate:
+				switch memMapField(x.Map) {
+				case ix.Primary:
+					pSites = append(pSites, site{fn, in, x.Key, false})
+				case ix.Field:
+					hSites = append(hSites, site{fn, in, x.Key, false})
+				}
+			case *ssa.Store:
+				if fa, ok := x.Addr.(*ssa.FieldAddr); ok {
+					if f := an.FieldOf(fa); f != nil && an.Ident(f.Name()) == ix.Field {
+						if _, ok := x.Val.(*ssa.MakeMap); ok {
+							made = true
+						} else {
+							ix.Unknown = append(ix.Unknown, "the index field is assigned something other than a made map at "+p.Pos(in.Pos()))
+						}
+					}
+				}
+			case ssa.CallInstruction:
+				if b, ok := x.Common().Value.(*ssa.Builtin); ok && an.Ident(b.Name()) == "delete" && len(x.Common().Args) == 2 {
+					switch memMapField(x.Common().Args[0]) {
+					case ix.Primary:
+						pSites = append(pSites, site{fn, in, x.Common().Args[1], true})
+					case ix.Field:
+						hSites = append(hSites, site{fn, in, x.Common().Args[1], true})
+					}
+				}
+			}
+		})
+	}
+	if !made {
+		ix.Problems = append(ix.Problems, "the index "+ix.Field+" is never assigned a made map where the store is constructed")
+	}
+	maintenance := map[*ssa.Function]bool{}
+	for _, w := range pSites {
+		maintenance[w.fn] = true
+	}
+	for _, h := range hSites {
+		if !maintenance[h.fn] {
+			ix.Unknown = append(ix.Unknown, ix.Field+" is written at "+p.Pos(h.in.Pos())+" in a function that does not write "+ix.Primary)
+		}
+	}
+	isRet := func(in ssa.Instruction) bool { _, ok := in.(*ssa.Return); return ok }
+	// paired: every path through w (entry -> w -> return) passes one of the given H updates
+	mustPass := func(fn *ssa.Function, w ssa.Instruction, hs []ssa.Instruction) bool {
+		stop := func(in ssa.Instruction) bool {
+			for _, h := range hs {
+				if in == h {
+					return true
+				}
+			}
+			return false
+		}
+		after := an.PathAvoiding(fn, w, stop, isRet, nil) == nil
+		before := an.PathAvoiding(fn, nil, stop, func(in ssa.Instruction) bool { return in == w }, nil) == nil
+		return after || before
+	}
+	for _, w := range pSites {
+		ix.Sites++
+		var adds, dels []ssa.Instruction
+		for _, h := range hSites {
+			if h.fn == w.fn && sameKeyExpr(h.key, w.key) {
+				if h.del {
+					dels = append(dels, h.in)
+				} else {
+					adds = append(adds, h.in)
+				}
+			}
+		}
+		if w.del {
+			if len(dels) == 0 || !mustPass(w.fn, w.in, dels) {
+				ix.Problems = append(ix.Problems, "the removal from "+ix.Primary+" at "+p.Pos(w.in.Pos())+" is not paired on every path with the removal of the same key from "+ix.Field+": a removed record stays listed")
+			}
+			continue
+		}
+		if len(adds) == 0 && len(dels) == 0 && rewritesSameRecord(ix.Primary, w.in.(*ssa.MapUpdate)) {
+			continue // read-modify-write of the record under its own key with no bool field assigned: membership unchanged
+		}
+		if len(adds) == 0 || len(dels) == 0 {
+			ix.Problems = append(ix.Problems, "the write of "+ix.Primary+" at "+p.Pos(w.in.Pos())+" does not both insert the key into "+ix.Field+" (flag set) and remove it (flag clear): a record whose flag changed keeps its old membership")
+			continue
+		}
+		if !mustPass(w.fn, w.in, append(append([]ssa.Instruction{}, adds...), dels...)) {
+			ix.Problems = append(ix.Problems, "the write of "+ix.Primary+" at "+p.Pos(w.in.Pos())+" can happen without "+ix.Field+" being brought in step on the same path")
+			continue
+		}
+		// the insertion sits on the flag's true branch, the removal on its false branch, the flag being a bool field of
+		// the record written (or of the value it is built from)
+		rec := p.Derives(0, w.in.(*ssa.MapUpdate).Value)
+		flagOf := func(in ssa.Instruction, want bool) string {
+			for _, ci := range an.ControllingIfs(in.Block()) {
+				v := ci.If.Cond
+				pol := ci.Succ == 0
+				for {
+					if u, ok := v.(*ssa.UnOp); ok && u.Op == token.NOT {
+						v, pol = u.X, !pol
+						continue
+					}
+					break
+				}
+				fv := an.FieldOf(stripLoad(v))
+				if fv == nil {
+					continue
+				}
+				if b, ok := fv.Type().Underlying().(*types.Basic); !ok || b.Kind() != types.Bool {
+					continue
+				}
+				root, _ := an.RootPath(stripLoad(v))
+				if u, ok := v.(*ssa.UnOp); ok && u.Op == token.MUL {
+					root, _ = an.RootPath(u.X)
+				}
+				fromRec := false
+				for _, nd := range rec.Nodes {
+					if sameObject(nd, root) {
+						fromRec = true
+					}
+				}
+				if fromRec && pol == want {
+					return fv.Name()
+				}
+			}
+			return ""
+		}
+		okShape := true
+		flag := ""
+		for _, a := range adds {
+			f := flagOf(a, true)
+			if f == "" {
+				okShape = false
+			}
+			flag = f
+		}
+		for _, d := range dels {
+			if f := flagOf(d, false); f == "" || (flag != "" && f != flag) {
+				okShape = false
+			}
+		}
+		if !okShape {
+			ix.Unknown = append(ix.Unknown, "the updates of "+ix.Field+" beside the write of "+ix.Primary+" at "+p.Pos(w.in.Pos())+" are not chosen by a bool field of the record written")
+			continue
+		}
+		ix.Flag = flag
+	}
+	if len(pSites) == 0 {
+		ix.Unknown = append(ix.Unknown, ix.Primary+" is never written")
+	}
+	ix.Problems = dedup(ix.Problems)
+	ix.Unknown = dedup(ix.Unknown)
+	ix.Verified = len(ix.Problems) == 0 && len(ix.Unknown) == 0
+	if ix.Verified {
+		for _, h := range hSites {
+			auxSkip[h.in] = true
+		}
+	}
+}
+
+// rewritesSameRecord: mu stores back, under the same key, a local copy of P[key] none of whose bool fields was assigned.
+func rewritesSameRecord(primary string, mu *ssa.MapUpdate) bool {
+	ld, ok := mu.Value.(*ssa.UnOp)
+	if !ok || ld.Op != token.MUL {
+		return false
+	}
+	al, ok := ld.X.(*ssa.Alloc)
+	if !ok {
+		return false
+	}
+	fromP := false
+	for _, ref := range *al.Referrers() {
+		st, ok := ref.(*ssa.Store)
+		if !ok || st.Addr != ssa.Value(al) {
+			continue
+		}
+		var lk *ssa.Lookup
+		switch x := st.Val.(type) {
+		case *ssa.Lookup:
+			lk = x
+		case *ssa.Extract:
+			lk, _ = x.Tuple.(*ssa.Lookup)
+		}
+		if lk == nil || memMapField(lk.X) != primary || !sameKeyExpr(lk.Index, mu.Key) {
+			return false
+		}
+		fromP = true
+	}
+	if !fromP {
+		return false
+	}
+	// no bool field of the copy is assigned
+	var boolStore func(v ssa.Value) bool
+	boolStore = func(v ssa.Value) bool {
+		for _, ref := range *v.Referrers() {
+			switch x := ref.(type) {
+			case *ssa.FieldAddr:
+				if f := an.FieldOf(x); f != nil {
+					if b, ok := f.Type().Underlying().(*types.Basic); ok && b.Kind() == types.Bool {
+						for _, r2 := range *x.Referrers() {
+							if _, ok := r2.(*ssa.Store); ok {
+								return true
+							}
+						}
+					}
+					if _, isStruct := f.Type().Underlying().(*types.Struct); isStruct && hasBoolField(f.Type()) {
+						for _, r2 := range *x.Referrers() {
+							if st, ok := r2.(*ssa.Store); ok && st.Addr == ssa.Value(x) {
+								return true // whole embedded record replaced
+							}
+						}
+						if boolStore(x) {
+							return true
+						}
+					}
+				}
+			}
+		}
+		return false
+	}
+	return !boolStore(al)
 }
